@@ -363,7 +363,7 @@ func grammarString(g *rgrammar) string {
 
 type wfOpts struct {
 	nNT, nTok, nStr, nExtraRules, nDirectives, depth int
-	ruleHandles                                       bool
+	ruleHandles                                      bool
 }
 
 func shuffled[T any](r *rng, xs []T) []T {
